@@ -3,6 +3,8 @@
 //! trace for TLC) and `replay` (step TLC-generated cases through the real code and compare
 //! the projected state with what the specification computed).
 mod common;
+mod corpus;
+mod c02;
 mod c10;
 mod c14;
 mod c19;
@@ -17,6 +19,7 @@ fn main() {
     common::quiet_panics();
     let rest = &args[2..];
     match (args[0].as_str(), args[1].as_str()) {
+        ("C02", "drive") => c02::drive(rest),
         ("C10", "replay") => c10::replay(rest),
         ("C10", "drive") => c10::drive(rest),
         ("C14", "replay") => c14::replay(rest),
